@@ -173,6 +173,8 @@ func (pc *propCtx) unsafeReach(at ssa.Instruction) map[*ssa.BasicBlock]bool {
 				}
 				e := phi.Edges[i]
 				switch {
+				case pc.errv != nil && (e == pc.errv || ne[e] == 3):
+					set(phi, 3) // carries the error under scrutiny on this path
 				case isNilConst(e):
 					set(phi, 1)
 				case definitelyNonNilErr(e, nil):
@@ -204,6 +206,10 @@ func (pc *propCtx) unsafeReach(at ssa.Instruction) map[*ssa.BasicBlock]bool {
 					}
 					if isNilConst(y) {
 						if k := env[x]; (k == 2 && c.Op == token.EQL) || (k == 1 && c.Op == token.NEQ) {
+							continue
+						}
+						// the value tested is the error itself (merged through phis): its nil edge is the safe one
+						if env[x] == 3 && c.Op == token.EQL && pc.holds != nil && pc.holds(cmpNorm{X: pc.errv, Op: token.EQL, Y: y}) {
 							continue
 						}
 					}
